@@ -47,7 +47,7 @@ def run(chk):
                           us_stride=32, us_offset=chk.seed % 32))
     else:
         for i, o in enumerate(ORDERS4):
-            tasks.append(dict(n=4, order=o, via=None, us_stride=8, us_offset=i % 8))
+            tasks.append(dict(n=4, order=o, via=None, us_stride=16, us_offset=i % 16))
     for t in tasks:
         t.update(shard=chk.shard('sw_c18_%d' % tid), tid=tid, seed=chk.seed + tid, tmpdir=tmp)
         tid += 1
